@@ -10,7 +10,7 @@ for l in open('properties.jsonl'):
         rel.setdefault(f.split('/')[-1],[]).append(p['id'])
 open('/tmp/pmd_rel.json','w').write(json.dumps(rel))
 PY
-for d in $(dirname $0)/../benign/*/; do
+for d in benign/*/; do
   n=$(basename $d)
   git -C ${SCRATCH:-/tmp/seedrun} checkout -q -- .
   if ! git -C ${SCRATCH:-/tmp/seedrun} apply $d/patch.diff 2>/dev/null; then echo "$n patch-does-not-apply"; continue; fi
